@@ -180,7 +180,10 @@ func (self *Core) runInstruction(instruction compiler.Instruction) *value.VmInte
 			return interrupt
 		}
 
-		self.push(v)
+		// A host call without a result (e.g. registering a trigger) must not leave a nil entry on the operand stack.
+		if v != nil {
+			self.push(v)
+		}
 	case compiler.Opcode_Jump:
 		i := instruction.(compiler.OneIntInstruction)
 		self.callFrame().InstructionPointer = uint(i.Value)
